@@ -143,9 +143,7 @@ func init() {
 			obs = append(obs, c.ReceiveBufferPerPacket()...)
 			obs = append(obs, c.Pools("net/packet")...)
 			obs = append(obs, c.DrainBeforeClose("net/queue")...)
-			obs = append(obs, filterObs(c.LengthPrefixes("net/packet"), func(o core.Ob) bool {
-				return strings.Contains(o.Key, "(String)") || strings.Contains(o.Key, "(Identifier)")
-			})...)
+			obs = append(obs, c.LengthPrefixes("net/packet")...)
 			gate := pkgPred("server", "server/auth", "bot")
 			gateArmed := pkgPred("server", "server/auth")
 			obs = append(obs, c.ErrFlow(gate, gateArmed)...)
